@@ -379,6 +379,57 @@ func (c *ctx) factsSites(repo string) {
 			})
 		}
 	}
+	// every method.ParseOpts literal: which parsing profile each consumer of a function signature uses
+	var optsSites []string
+	for _, k := range paths {
+		p := c.pkgs[k]
+		for _, f := range p.Syntax {
+			fname := filepath.Base(p.Fset.Position(f.Pos()).Filename)
+			if strings.HasSuffix(fname, "_test.go") {
+				continue
+			}
+			for _, d := range f.Decls {
+				fd, ok := d.(*ast.FuncDecl)
+				if !ok || fd.Body == nil {
+					continue
+				}
+				ast.Inspect(fd.Body, func(n ast.Node) bool {
+					cl, ok := n.(*ast.CompositeLit)
+					if !ok || cl.Type == nil || exprString(p, cl.Type) != "method.ParseOpts" {
+						return true
+					}
+					vals := map[string]string{}
+					for _, el := range cl.Elts {
+						if kv, ok := el.(*ast.KeyValueExpr); ok {
+							vals[exprString(p, kv.Key)] = exprString(p, kv.Value)
+						}
+					}
+					get := func(k, dflt string) string {
+						if v, ok := vals[k]; ok {
+							return v
+						}
+						return dflt
+					}
+					optsSites = append(optsSites, fmt.Sprintf("%s:%s|params=%s|ctx=%s|tp=%s|conv=%s|generated=%s|update=%s|multi=%s", fname, fd.Name.Name,
+						get("Params", "<zero>"), get("ContextMatch", "nil"), get("AllowTypeParams", "false"), get("Converter", "nil"),
+						get("Generated", "false"), get("UpdateParam", "\"\""), get("ParamsMultiSource", "false")))
+					return true
+				})
+			}
+		}
+	}
+	sort.Strings(optsSites)
+	smr := "<unknown>"
+	if p, v := c.varValue("/config", "StructMethodContextRegex"); v != nil {
+		if call, ok := v.(*ast.CallExpr); ok && exprString(p, call.Fun) == "regexp.MustCompile" && len(call.Args) == 1 {
+			if s, ok := constOf(p, call.Args[0]); ok {
+				smr = s
+			}
+		}
+	}
+	c.emit("\ndef structMethodContextRegex : String := %s\n", q(smr))
+	c.emit("\n/-- every method.ParseOpts literal in non-test code: file:func|params|context regex|type params|converter|generated|update|multi -/\n")
+	c.emit("def parseOptsSites : List String := [\n  %s]\n", strings.Join(quoteAll(optsSites), ",\n  "))
 	sort.Strings(multi)
 	c.emit("\ndef multiSourceEnabledSites : List String := %s\n", qlist(multi))
 	sort.Strings(ranges)
